@@ -43,7 +43,7 @@ VERIF = os.path.dirname(os.path.dirname(os.path.abspath(__file__)))
 ANCHOR_ROOT = os.path.join(VERIF, "anchors", "tree")
 _cache = {}
 LOG_RECEIVERS = {"log", "logger", "logging", "_log", "LOG"}
-PURE_BUILTINS = {"len", "int", "str", "bytes", "ord", "chr", "isinstance", "tuple", "list", "bool", "float", "repr", "min", "max", "abs", "type", "getattr", "hasattr",
+PURE_BUILTINS = {"staticmethod", "classmethod", "len", "int", "str", "bytes", "ord", "chr", "isinstance", "tuple", "list", "bool", "float", "repr", "min", "max", "abs", "type", "getattr", "hasattr",
                  "sorted", "set", "dict", "frozenset", "range", "enumerate", "zip", "divmod", "id", "callable", "issubclass", "hash"}
 
 
@@ -1134,7 +1134,7 @@ def _inline_temps(stmts, fn_locals):
                 header = _header_of_pure(nxt) if _simple_pure(s.value) else _header_of(nxt)
                 uses = [n for h in header for n in ast.walk(h) if isinstance(n, ast.Name) and n.id == t and isinstance(n.ctx, ast.Load)]
                 body_uses = sum(1 for n in ast.walk(nxt) if isinstance(n, ast.Name) and n.id == t and isinstance(n.ctx, ast.Load))
-                if len(uses) == 1 and body_uses == 1 and _inline_ok(s.value, header, uses[0]):
+                if len(uses) == 1 and body_uses == 1 and _inline_ok(s.value, header, uses[0], (counts.get("<nested>") or (0, 0, False, ()))[3]):
                     out[i + 1] = _Subst({t: s.value}).visit(nxt)
                     del out[i]
                     if info[:2] == (1, 1):
@@ -1151,7 +1151,7 @@ def _local_only(e):
                for n in ast.walk(e))
 
 
-def _inline_ok(value, header, use):
+def _inline_ok(value, header, use, nested=()):
     pure = _simple_pure(value)
     for h in header:
         for n in ast.walk(h):
@@ -1162,8 +1162,9 @@ def _inline_ok(value, header, use):
                 return False            # conditionally evaluated
             if not pure and isinstance(n, ast.IfExp) and _in(n, use) and not _in(n.test, use):
                 return False
-    if pure:
-        return True
+    if pure and _local_only(value):
+        return True         # constants and locals: nothing evaluated in between can change what it yields
+    # a value that reads the heap (attributes, items, len()) must not move behind a call that may write there
     for h in header:
         for n in _eval_order(h):
             if n is use:
@@ -1172,6 +1173,8 @@ def _inline_ok(value, header, use):
                 continue
             if isinstance(n, (ast.Call, ast.BoolOp, ast.IfExp, ast.Lambda, ast.ListComp, ast.SetComp, ast.DictComp, ast.GeneratorExp, ast.Await)):
                 if not _simple_pure(n):
+                    if pure and isinstance(n, ast.Call) and not _call_may_write(n, _names_loaded(value) | {"super"}, _reads_deep(value), nested):
+                        continue        # the call has no access to the objects the value reads
                     return False
     return True
 
@@ -1191,6 +1194,7 @@ def _propagate(fn):
         order = _source_order_nodes(fn)
         pos = {id(n): i for i, n in enumerate(order)}
         attr_stores = {ast.unparse(n) for n in ast.walk(fn) if isinstance(n, ast.Attribute) and isinstance(n.ctx, (ast.Store, ast.Del))}
+        barrier_cache = {}
         for st in _all_simple_assigns(fn):
             t = st.targets[0].id
             if t not in counts or t in params:
@@ -1214,6 +1218,8 @@ def _propagate(fn):
                         break
             if counts[t][0] == 1 and _simple_pure(v) and not later_store and (_stable(v, attr_stores, params) or (isinstance(v, ast.Constant) and (v.value is None or isinstance(v.value, (bool, int))))) and _size(v) <= 12 and t not in _captured(fn):
                 loads = [n for n in order if isinstance(n, ast.Name) and isinstance(n.ctx, ast.Load) and n.id == t]
+                if not _local_only(v) and _attr_barrier(fn, st, t, barrier_cache):
+                    continue        # a call in between may store the attribute: the temporary is a snapshot, not an abbreviation
                 compound = not isinstance(v, (ast.Name, ast.Attribute, ast.Constant))
                 # a compound value read once is an ordinary temporary (handled by _inline_temps, same rules on both sides); read several
                 # times it is a common subexpression and is expanded
@@ -1226,6 +1232,176 @@ def _propagate(fn):
 
 def _size(e):
     return sum(1 for _ in ast.walk(e))
+
+
+def _eval_events(fn):
+    """(events, loops, dead): names read / calls completed, in evaluation order (operands before the call that consumes them); for every
+    loop the [first, last] event index of its body; and the index ranges of blocks that always end in return / raise (nothing after such a
+    block is reached from inside it)"""
+    ev, loops, dead = [], [], []
+
+    def terminates(body):
+        if not body:
+            return False
+        last = body[-1]
+        if isinstance(last, (ast.Return, ast.Raise)):
+            return True
+        if isinstance(last, ast.If):
+            return terminates(last.body) and terminates(last.orelse)
+        return False
+
+    def expr(n):
+        if n is None:
+            return
+        if isinstance(n, (ast.FunctionDef, ast.AsyncFunctionDef, ast.Lambda, ast.ClassDef)):
+            return
+        if isinstance(n, (ast.ListComp, ast.SetComp, ast.DictComp, ast.GeneratorExp)):
+            a = len(ev)
+            for ch in ast.iter_child_nodes(n):
+                expr(ch)
+            loops.append((a, len(ev) - 1))
+            return
+        for ch in ast.iter_child_nodes(n):
+            expr(ch)
+        if isinstance(n, ast.Name) and isinstance(n.ctx, ast.Load):
+            ev.append(("load", n))
+        elif isinstance(n, (ast.Call, ast.Yield, ast.YieldFrom, ast.Await)):
+            ev.append(("call", n))
+
+    def stmts(body):
+        for st in body:
+            stmt(st)
+
+    def stmt(st):
+        if isinstance(st, (ast.FunctionDef, ast.AsyncFunctionDef, ast.ClassDef)):
+            return
+        if isinstance(st, ast.Assign):
+            expr(st.value)
+            for t in st.targets:
+                expr(t)
+            ev.append(("def", st))
+        elif isinstance(st, (ast.For, ast.AsyncFor)):
+            expr(st.iter)
+            a = len(ev)
+            expr(st.target)
+            stmts(st.body)
+            loops.append((a, len(ev) - 1))
+            stmts(st.orelse)
+        elif isinstance(st, ast.While):
+            a = len(ev)
+            expr(st.test)
+            stmts(st.body)
+            loops.append((a, len(ev) - 1))
+            stmts(st.orelse)
+        elif isinstance(st, ast.If):
+            expr(st.test)
+            for blk in (st.body, st.orelse):
+                a = len(ev)
+                stmts(blk)
+                if terminates(blk) and len(ev) > a and not _try_parents:
+                    dead.append((a, len(ev) - 1))
+        elif isinstance(st, (ast.With, ast.AsyncWith)):
+            for it in st.items:
+                expr(it.context_expr)
+                expr(it.optional_vars)
+                ev.append(("call", it))          # __enter__ runs arbitrary code
+            stmts(st.body)
+            ev.append(("call", st))              # __exit__
+        elif isinstance(st, ast.Try):
+            # a raise inside a try body continues in its handlers: blocks in there are not dead ends
+            _try_parents.append(st)
+            stmts(st.body)
+            _try_parents.pop()
+            for h in st.handlers:
+                expr(h.type)
+                stmts(h.body)
+            stmts(st.orelse)
+            stmts(st.finalbody)
+        else:
+            expr(st)
+    _try_parents = []
+    stmts(fn.body)
+    return ev, loops, dead
+
+
+def _call_may_write(c, roots, deep, nested):
+    """may this call run code that stores attributes of the objects named `roots`?  A method of one of them is called, one of them is
+    handed over, a nested function that can see them is called, or control leaves the frame (with-blocks, yield, await).  Handing over
+    the *value* of an attribute gives no access to the object that holds it, so that only matters (`deep`) when the temporary reads
+    through the attribute (an item, a length, an attribute of the attribute)."""
+    if not isinstance(c, ast.Call):
+        return True
+    if _simple_pure(c):
+        return False
+    if isinstance(c.func, ast.Name) and c.func.id in nested:
+        return True
+    root = c.func
+    while isinstance(root, (ast.Attribute, ast.Subscript)):
+        root = root.value
+    if isinstance(root, ast.Call) or (isinstance(root, ast.Name) and root.id in roots):
+        # self.m(...), self.a.m(...), super().m(...), f(...)(...) -- except a pure str/bytes/dict method of an attribute value
+        if not (isinstance(c.func, ast.Attribute) and c.func.attr in PURE_METHODS and isinstance(root, ast.Name) and root is not c.func.value):
+            return True
+    attr_roots = {id(x.value) for x in ast.walk(c) if isinstance(x, ast.Attribute)}
+    for x in list(c.args) + [k.value for k in c.keywords]:
+        for n in ast.walk(x):
+            if isinstance(n, ast.Name) and n.id in roots:
+                if deep or id(n) not in attr_roots:
+                    return True
+    return False
+
+
+def _reads_deep(v):
+    """does the value read *through* an attribute (an item, a length, an attribute of an attribute)?"""
+    return any(isinstance(x, (ast.Subscript, ast.Call)) or (isinstance(x, ast.Attribute) and isinstance(x.value, ast.Attribute)) for x in ast.walk(v))
+
+
+def _touches_self(c, nested, deep):
+    return _call_may_write(c, ("self", "cls", "super"), deep, nested)
+
+
+def _attr_barrier(fn, st, t, cache=None):
+    """`t = <value reading attributes of self/cls>`: is some read of t separated from the assignment by a call that may store those
+    attributes?  (then the value at the read may differ from the value at the assignment, and t is not a mere abbreviation)"""
+    if cache is None:
+        cache = {}
+    if "ev" not in cache:
+        cache["ev"] = _eval_events(fn)
+        cache["nested"] = {n.name for n in ast.walk(fn) if n is not fn and isinstance(n, (ast.FunctionDef, ast.AsyncFunctionDef))} | \
+            {tt.id for a in ast.walk(fn) if isinstance(a, ast.Assign) and isinstance(a.value, ast.Lambda) for tt in a.targets if isinstance(tt, ast.Name)}
+        cache["calls"] = [(k, n) for k, (kind, n) in enumerate(cache["ev"][0]) if kind == "call" and not (isinstance(n, ast.Call) and _simple_pure(n))]
+    ev, loops, dead = cache["ev"]
+    nested = cache["nested"]
+    i = next((k for k, (kind, n) in enumerate(ev) if kind == "def" and n is st), None)
+    if i is None:
+        return True
+    v = st.value
+    deep = _reads_deep(v)
+    # locals that may hold a reference obtained from self also hand it over
+    roots = _names_loaded(v) | {"super"}
+    esc = [k for k, n in cache["calls"] if _call_may_write(n, roots, deep, nested)]
+    if deep:
+        tainted = {tt.id for a in ast.walk(fn) if isinstance(a, ast.Assign) and any(isinstance(x, ast.Name) and x.id in roots for x in ast.walk(a.value))
+                   for tt in a.targets for tt in ast.walk(tt) if isinstance(tt, ast.Name)}
+        for k, n in cache["calls"]:
+            if k not in esc and isinstance(n, ast.Call) and any(isinstance(x, ast.Name) and x.id in tainted for x in ast.walk(n)):
+                esc.append(k)
+    if not esc:
+        return False
+
+    def reaches(k, j):
+        """does control flow from event k on to event j?  not when k lies in a block that always ends in return / raise and j lies after it"""
+        return not any(a <= k <= b and j > b for a, b in dead)
+    for j, (kind, n) in enumerate(ev):
+        if kind == "load" and n.id == t:
+            if j < i:
+                return True
+            if any(i < k < j and reaches(k, j) for k in esc):
+                return True
+            for a, b in loops:
+                if a <= j <= b and not (a <= i <= b) and any(a <= k <= b for k in esc):
+                    return True
+    return False
 
 
 def _stable(e, attr_stores, params=("self", "cls")):
@@ -1440,6 +1616,10 @@ def _local_counts(fn, for_rename=False):
         ld = loads.get(k, 0)
         is_paired = paired.get(k, True) and total_pairs.get(k, 0) == v and ld == v and v > 0
         out[k] = (v, ld, is_paired)
+    nested = {n.name for n in ast.walk(fn) if n is not fn and isinstance(n, (ast.FunctionDef, ast.AsyncFunctionDef))} | \
+             {tt.id for a in ast.walk(fn) if isinstance(a, ast.Assign) and isinstance(a.value, ast.Lambda) for tt in a.targets if isinstance(tt, ast.Name)}
+    if nested and not for_rename:
+        out["<nested>"] = (0, 0, False, nested)
     return out
 
 
@@ -2666,6 +2846,23 @@ class _ConstFold(ast.NodeTransformer):
         self.generic_visit(node)
         if isinstance(node.test, ast.Constant):
             return (node.body if node.test.value else node.orelse) or [ast.Pass()]
+        if isinstance(node.test, ast.Tuple) and not node.test.elts:
+            return node.orelse or [ast.Pass()]
+        return node
+
+    def visit_For(self, node):
+        self.generic_visit(node)
+        if isinstance(node.iter, ast.Tuple) and not node.iter.elts:
+            return node.orelse or [ast.Pass()]      # a loop over the empty default runs no iteration
+        return node
+
+    def visit_Expr(self, node):
+        self.generic_visit(node)
+        c = node.value
+        # lst.extend(()) on a name that only ever holds a list display / comprehension built in this function
+        if isinstance(c, ast.Call) and isinstance(c.func, ast.Attribute) and c.func.attr == "extend" and len(c.args) == 1 and not c.keywords \
+                and isinstance(c.args[0], ast.Tuple) and not c.args[0].elts and isinstance(c.func.value, ast.Name) and c.func.value.id in getattr(self, "lists", ()):
+            return ast.Pass()
         return node
 
 
@@ -2719,7 +2916,24 @@ def _specialise_new_params(new, old):
     sp.args.kw_defaults = [d for _, d in kws]
     doc = [st for st in sp.body[:1] if _is_docstring(st)]
     sp.body = doc + pre + [_Subst(defaults).visit(st) for st in sp.body[len(doc):]]
-    sp = _ConstFold().visit(sp)
+    cf = _ConstFold()
+    # names every binding of which is a fresh list (display, comprehension, sorted(...), list(...))
+    binds = {}
+    for n in ast.walk(sp):
+        if isinstance(n, ast.Assign):
+            for t in n.targets:
+                for x in ast.walk(t):
+                    if isinstance(x, ast.Name):
+                        binds.setdefault(x.id, []).append(n.value if t is x else None)
+        elif isinstance(n, (ast.AugAssign, ast.AnnAssign, ast.For, ast.NamedExpr, ast.withitem, ast.comprehension, ast.ExceptHandler, ast.Import, ast.ImportFrom)):
+            t = getattr(n, "target", None) or getattr(n, "optional_vars", None)
+            for x in ast.walk(t) if t is not None else ():
+                if isinstance(x, ast.Name):
+                    binds.setdefault(x.id, []).append(None)
+    params = {a_.arg for a_ in sp.args.posonlyargs + sp.args.args + sp.args.kwonlyargs} | {x.arg for x in (sp.args.vararg, sp.args.kwarg) if x}
+    cf.lists = {nm for nm, vs in binds.items() if nm not in params and all(
+        isinstance(v, (ast.List, ast.ListComp)) or (isinstance(v, ast.Call) and isinstance(v.func, ast.Name) and v.func.id in ("sorted", "list")) for v in vs)}
+    sp = cf.visit(sp)
     flat = []
     for st in sp.body:
         flat.extend(st if isinstance(st, list) else [st])
